@@ -37,12 +37,12 @@ opaque!(BusListener);
 //@item core/src/message/sync.rs struct Sync
 //@item core/src/message/sync_reply.rs struct SyncReply
 
-impl IntoMessage for CreateObjectReply { open spec fn min_minor() -> u32 { 0 } }
-impl IntoMessage for DestroyObjectReply { open spec fn min_minor() -> u32 { 0 } }
-impl IntoMessage for CreateServiceReply { open spec fn min_minor() -> u32 { 0 } }
-impl IntoMessage for DestroyServiceReply { open spec fn min_minor() -> u32 { 0 } }
-impl IntoMessage for QueryServiceVersionReply { open spec fn min_minor() -> u32 { 0 } }
-impl IntoMessage for SyncReply { open spec fn min_minor() -> u32 { 0 } }
+impl IntoMessage for CreateObjectReply { open spec fn min_minor() -> u32 { 0 } open spec fn allowed_for(&self, receiver: &ConnectionState) -> bool { true } }
+impl IntoMessage for DestroyObjectReply { open spec fn min_minor() -> u32 { 0 } open spec fn allowed_for(&self, receiver: &ConnectionState) -> bool { true } }
+impl IntoMessage for CreateServiceReply { open spec fn min_minor() -> u32 { 0 } open spec fn allowed_for(&self, receiver: &ConnectionState) -> bool { true } }
+impl IntoMessage for DestroyServiceReply { open spec fn min_minor() -> u32 { 0 } open spec fn allowed_for(&self, receiver: &ConnectionState) -> bool { true } }
+impl IntoMessage for QueryServiceVersionReply { open spec fn min_minor() -> u32 { 0 } open spec fn allowed_for(&self, receiver: &ConnectionState) -> bool { true } }
+impl IntoMessage for SyncReply { open spec fn min_minor() -> u32 { 0 } open spec fn allowed_for(&self, receiver: &ConnectionState) -> bool { true } }
 impl ServiceInfo {
     #[verifier::external_body]
     pub fn version(self) -> (r: u32) { unimplemented!() }
